@@ -43,7 +43,7 @@ structure PI (ex : Option Nat) (fl : Nat) (T : Nat → Prop) (C : List Nat) (s :
   sorted : ∀ i, (chain (s.th i)).Pairwise (fun a b => a.ts ≤ b.ts)
   leNow : ∀ i, ∀ st ∈ chain (s.th i), st.ts ≤ s.now
   qc : ∀ i, QC (s.th i)
-  bufCache : ∀ i, (s.th i).buf ≠ [] → i ∈ s.cache
+  bufCache : ∀ i ∈ s.registry, (s.th i).buf ≠ [] → i ∈ s.cache
   cacheReg : ∀ i ∈ s.cache, i ∈ s.registry
   fresh : s.newFlag = false → ∀ i ∈ s.registry, i ∈ s.cache
   ctxLt : ∀ a x i, s.actor a = some x → x.ctx = some i → i < s.ths.length
@@ -90,7 +90,7 @@ theorem PI.congr {ex fl T C} {s s' : BSt} (h : PI ex fl T C s) (hcfg : s'.cfg = 
   sorted := fun i => by rw [(hth i).chain]; exact h.sorted i
   leNow := fun i => by rw [(hth i).chain, hnow]; exact h.leNow i
   qc := fun i => (hth i).qc (h.qc i)
-  bufCache := fun i => by rw [(hth i).buf, hcache]; exact h.bufCache i
+  bufCache := fun i => by rw [(hth i).buf, hcache, hreg]; exact h.bufCache i
   cacheReg := by rw [hcache, hreg]; exact h.cacheReg
   fresh := by rw [hcache, hreg, hnf]; exact h.fresh
   ctxLt := fun a x i => by rw [hact, hlen]; exact h.ctxLt a x i
